@@ -357,7 +357,8 @@ theorem maupiti_pad_interior (p0 p1 : ℕ) (v : ℤ) (x : List (List ℤ)) (i j 
 /-- the pad value is the integer image of a real zero -/
 theorem maupiti_pad_value_is_zero_image (pIn : ℕ) : (0 : ℤ) + inOffset pIn = inOffset pIn := zero_add _
 
-/-- **last MAUPITI linear layer**: the un-floored output is `(acc + n_b)·scale/2^shift`, the
+/-- **last MAUPITI layer** (Linear, or a final Conv2d: `w`, `x` are then the kernel and the — padded —
+receptive field): the un-floored output is `(acc + n_b)·scale/2^shift`, the
 offset being compensated exactly -/
 theorem maupiti_last_layer (w x : List ℤ) (hl : w.length = x.length) (s nb : ℤ) (sh pIn : ℕ) :
     maupitiLast (dot w (x.map (· + inOffset pIn))) s (zeroPointLast (nb * s) s w.sum pIn) sh
